@@ -12,7 +12,7 @@ from fractions import Fraction
 import z3
 
 SOLVER_TIMEOUT_MS = 60_000
-FEAS_TIMEOUT_MS = 10_000
+FEAS_TIMEOUT_MS = 2_000
 
 
 class VCSignal(BaseException):
@@ -382,7 +382,9 @@ def _mod(a, b):
         vb = const_value(b)
         if isinstance(vb, int) and vb > 0:
             return SNum(a % b)
-        raise Unsupported("modulo with non-constant or non-positive divisor")
+        # python: result has the sign of the divisor; z3: euclidean remainder in [0, |b|)
+        r = a % b
+        return SNum(z3.If(b > 0, r, z3.If(r == 0, r, r + b)))
     # real modulo by a positive constant: x - b*floor(x/b)
     a, b = to_real(a), to_real(b)
     vb = const_value(b)
@@ -441,6 +443,11 @@ class Ctx:
         self.opts = opts or {}
         self.solver = z3.Solver()
         self.solver.set("timeout", FEAS_TIMEOUT_MS)
+        # quantifier-free relaxation of the path condition: used for feasibility of branches, covers and the canary
+        # (satisfiability *with* quantified axioms is what SMT solvers are slow at; dropping them over-approximates
+        # feasibility, which is sound for pruning: an explored path that is infeasible only adds vacuous obligations)
+        self.fsolver = z3.Solver()
+        self.fsolver.set("timeout", FEAS_TIMEOUT_MS)
         self.initial = list(decisions)
         self.decisions = list(decisions)
         self.pos = 0
@@ -491,12 +498,17 @@ class Ctx:
         if z3.is_true(term):
             return
         self.solver.add(term)
-        if z3.is_quantifier(term):
+        if has_quantifier(term):
             self.quantified_assumptions.append(term)
+        else:
+            self.fsolver.add(term)
         self.assumptions.append((origin, text or _short(term)))
 
     def _feasible(self, cond):
-        r = self.solver.check(cond)
+        if has_quantifier(cond):
+            r = self.solver.check(cond)
+        else:
+            r = self.fsolver.check(cond)
         return r != z3.unsat  # unknown counts as feasible (only adds obligations)
 
     def branch(self, cond):
@@ -520,7 +532,10 @@ class Ctx:
             self.decisions.append(d)
         self.pos += 1
         val = d[1] if isinstance(d, tuple) else d
-        self.solver.add(cond if val else z3.Not(cond))
+        lit = cond if val else z3.Not(cond)
+        self.solver.add(lit)
+        if not has_quantifier(lit):
+            self.fsolver.add(lit)
         return val
 
     def path(self):
@@ -538,6 +553,8 @@ class Ctx:
         # after a checked clause we may assume it (standard): keeps later obligations independent
         if ob.status == "discharged":
             self.solver.add(clause)
+            if not has_quantifier(clause):
+                self.fsolver.add(clause)
         return ob
 
     def side_condition(self, name, clause):
@@ -558,7 +575,7 @@ class Ctx:
         if self.replaying():
             return
         t0 = time.time()
-        r = self.solver.check()
+        r = self.fsolver.check()
         ms = (time.time() - t0) * 1000
         st = "covered" if r == z3.sat else ("cover-unknown" if r == z3.unknown else "vacuous")
         self.covers += 1
@@ -569,13 +586,38 @@ class Ctx:
         if self.replaying():
             return
         t0 = time.time()
-        r = self.solver.check()
+        r = self.fsolver.check()
         ms = (time.time() - t0) * 1000
         st = "canary-ok" if r == z3.sat else ("canary-unknown" if r == z3.unknown else "canary-passed-vacuous")
         self.results.append(Obligation(f"{self.unit_name}/{name}", st, ms, "z3", path=self.path(), kind="canary"))
 
     def trust(self, name):
         self.trusted.add(name)
+
+
+_HQ = {}
+
+
+def has_quantifier(term):
+    k = term.get_id()
+    v = _HQ.get(k)
+    if v is not None:
+        return v
+    seen, stack, found = set(), [term], False
+    while stack:
+        e = stack.pop()
+        i = e.get_id()
+        if i in seen:
+            continue
+        seen.add(i)
+        if z3.is_quantifier(e):
+            found = True
+            break
+        stack.extend(e.children())
+    if len(_HQ) > 200000:
+        _HQ.clear()
+    _HQ[k] = found
+    return found
 
 
 def _short(term, n=160):
